@@ -128,14 +128,16 @@ class SendQueueGetAbs10:
     is any frame of 1 byte .. 3 MiB (bounded shape: the chunk list is unrolled; larger frames: bounded pass)."""
 
     abstract = True
-    modifies = {"self.g_pending": Int}
+    modifies = {"self.g_pending": Int, "self.g_owner._Protocol__connection.g_mark": Int}
     returns = Obj(BlockSendInfo, _data=Bytes(min_len=1, max_len=3 * MIB), g_owner=Same("self.g_owner"), g_resolved=Const(False))
 
     def requires(self):
         return self.g_pending >= 1
 
     def ensures(self, old):
-        return self.g_pending == old.self.g_pending - 1
+        c = self.g_owner._Protocol__connection
+        # ghost: where on the wire this block starts (nothing of it has been sent when it is taken from the queue)
+        return self.g_pending == old.self.g_pending - 1 and c.g_mark == len(c.g_wire)
 
 
 @contract("secsgem.common.connection:Connection.send_data", "C10", name="SendDataUse")
@@ -159,7 +161,8 @@ class SendDataUse:
 @contract("secsgem.common.block_send_info:BlockSendInfo.resolve", "C10", name="ResolveAbs10")
 class ResolveAbs10:
     """Call-out contract: a block is resolved once; with success only when the last transport call succeeded and the wire
-    ends with exactly the block's bytes (all chunks, in order, once); with failure right after a failed transport call."""
+    grew, since the block was taken from the queue, by exactly the block's bytes (all chunks, in order, ONCE - nothing
+    more, nothing twice); with failure right after a failed transport call, the wire then holding a prefix of the block."""
 
     abstract = True
     modifies = {"self.g_resolved": Bool}
@@ -168,8 +171,11 @@ class ResolveAbs10:
         c = self.g_owner._Protocol__connection
         w = c.g_wire
         n = len(self._data)
-        return (not self.g_resolved and result == c.g_last_ok
-                and implies(result, lambda: len(w) >= n and forall(len(w) - n, len(w), lambda u: w[u] == self._data[u - (len(w) - n)])))
+        return {"resolved-once": not self.g_resolved,
+                "result-is-the-last-transport-result": result == c.g_last_ok,
+                "success-only-after-exactly-the-blocks-bytes": implies(result, lambda: len(w) == c.g_mark + n),
+                "never-more-than-the-blocks-bytes": c.g_mark <= len(w) and len(w) <= c.g_mark + n,
+                "bytes-in-order": forall(c.g_mark, len(w), lambda u: w[u] == self._data[u - c.g_mark])}
 
     def ensures(self):
         return self.g_resolved
@@ -187,7 +193,7 @@ class ProcessSendQueue:
     def inputs():
         return {"self": Obj(HsmsProtocol,
                             _send_queue=Obj(AbsQueue, g_pending=Int(0, None), g_owner=Root()),
-                            _Protocol__connection=Obj(Connection, g_wire=ByteArray(), g_last_ok=Bool))}
+                            _Protocol__connection=Obj(Connection, g_wire=ByteArray(), g_last_ok=Bool, g_mark=Int))}
 
     def raises():
         return {}
@@ -204,7 +210,8 @@ class ProcessSendQueue:
         return len(w) >= len(w0) and forall(0, len(w0), lambda t: w[t] == w0[t])
 
     loops = {1: Loop(pending=inv_pending, wire=inv_wire,
-                     modifies=["self._send_queue.g_pending", "self._Protocol__connection.g_wire", "self._Protocol__connection.g_last_ok"])}
+                     modifies=["self._send_queue.g_pending", "self._Protocol__connection.g_wire", "self._Protocol__connection.g_last_ok",
+                               "self._Protocol__connection.g_mark"])}
 
     def replay(case, name, model):
         """Native demonstration: the real loop on a real queue of frames of 1 B, 1 MiB, 1 MiB + 1 and 2.5 MiB with a recording
